@@ -55,7 +55,11 @@ def gen_argv(p):
     def add(flag, key):
         if key in p and p[key] is not None:
             v = p[key]
-            a.extend([flag, v if isinstance(v, str) else repr(v)])
+            v = v if isinstance(v, str) else repr(v)
+            if v.startswith("-"):
+                a.append(flag + v)      # `-p-0.1`: the way to hand argparse a negative value
+            else:
+                a.extend([flag, v])
     add("-s", "seed"); add("-w", "width"); add("-l", "length"); add("-m", "max_reward")
     add("-p", "rb"); add("-q", "lb"); add("-r", "tb"); add("-t", "lt")
     if p.get("force_down"):
